@@ -40,6 +40,7 @@ const (
 type tierCfg struct {
 	name          string
 	corrupt       int
+	churn         int
 	serialSeconds float64
 	serialProcs   int
 	selfRuns      int
@@ -52,9 +53,9 @@ type tierCfg struct {
 }
 
 var tiers = map[string]tierCfg{
-	"quick": {name: "quick", corrupt: 300, serialSeconds: 20, serialProcs: 16, selfRuns: 200, pairsM: 64, preemptPairs: 24, preemptCap: 400,
+	"quick": {name: "quick", corrupt: 300, churn: 1200, serialSeconds: 20, serialProcs: 16, selfRuns: 200, pairsM: 64, preemptPairs: 96, preemptCap: 300,
 		burstSeconds: 12, burstProcs: 6, hardCap: 15 * time.Minute},
-	"thorough": {name: "thorough", corrupt: 1500, serialSeconds: 720, serialProcs: 16, selfRuns: 5000, pairsM: 420, preemptPairs: 600, preemptCap: 8000,
+	"thorough": {name: "thorough", corrupt: 1500, churn: 6000, serialSeconds: 720, serialProcs: 16, selfRuns: 5000, pairsM: 420, preemptPairs: 3000, preemptCap: 2000,
 		burstSeconds: 240, burstProcs: 6, hardCap: 90 * time.Minute},
 }
 
@@ -526,10 +527,11 @@ func loadKnown() []knownEntry {
 // ---- the check ---------------------------------------------------------------------------------------------------
 
 type violation struct {
-	identity string
-	replay   string
-	summary  string
-	known    *knownEntry
+	confirmed bool
+	identity  string
+	replay    string
+	summary   string
+	known     *knownEntry
 }
 
 func doCheck(cfg tierCfg) int {
@@ -551,7 +553,7 @@ func doCheck(cfg tierCfg) int {
 	if left, _ := b.instr["sync_left_real"].([]any); len(left) > 0 {
 		fmt.Printf("note: files using sync primitives the simulator does not model keep the real package: %v\n", left)
 	}
-	common := []string{"-root", b.rootSerial, "-seed", fmt.Sprint(seed), "-corrupt", fmt.Sprint(cfg.corrupt)}
+	common := []string{"-root", b.rootSerial, "-seed", fmt.Sprint(seed), "-corrupt", fmt.Sprint(cfg.corrupt), "-churn", fmt.Sprint(cfg.churn)}
 	ncpu := runtime.NumCPU()
 	if ncpu > 16 {
 		ncpu = 16
@@ -699,8 +701,10 @@ func doCheck(cfg tierCfg) int {
 			args: append([]string{"-mode", "pairs", "-w", fmt.Sprint(i), "-of", fmt.Sprint(ncpu), "-m", fmt.Sprint(cfg.pairsM), "-refs", table, "-out", out}, common...),
 			env:  []string{"GOMAXPROCS=1", "GOMEMLIMIT=3GiB"}})
 		out2 := filepath.Join(scratch, fmt.Sprintf("preempt-%d.json", i))
+		side2 := filepath.Join(scratch, fmt.Sprintf("preempt-%d.side", i))
+		sideFiles = append(sideFiles, side2)
 		ps = append(ps, &proc{name: fmt.Sprintf("preempt-%d", i), bin: b.serialBin, outFile: out2, timeout: 30 * time.Minute,
-			args: append([]string{"-mode", "preempt", "-w", fmt.Sprint(i), "-of", fmt.Sprint(ncpu), "-m", fmt.Sprint(cfg.preemptPairs), "-cap", fmt.Sprint(cfg.preemptCap), "-refs", table, "-out", out2}, common...),
+			args: append([]string{"-mode", "preempt", "-w", fmt.Sprint(i), "-of", fmt.Sprint(ncpu), "-m", fmt.Sprint(cfg.preemptPairs), "-cap", fmt.Sprint(cfg.preemptCap), "-refs", table, "-out", out2, "-side", side2}, common...),
 			env:  []string{"GOMAXPROCS=1", "GOMEMLIMIT=3GiB"}})
 	}
 	runAll(ps, ncpu)
@@ -745,7 +749,7 @@ func doCheck(cfg tierCfg) int {
 				out := filepath.Join(scratch, fmt.Sprintf("burst-%d-%d.json", i, restarts))
 				p := &proc{name: fmt.Sprintf("burst-%d", i), bin: b.raceBin, outFile: out, timeout: time.Duration(left*2+120) * time.Second,
 					args: append([]string{"-mode", "burst", "-w", fmt.Sprint(i), "-of", fmt.Sprint(cfg.burstProcs), "-from", fmt.Sprint(from), "-seconds", fmt.Sprint(left), "-refs", table, "-out", out},
-						"-root", b.rootRace, "-seed", fmt.Sprint(seed), "-corrupt", fmt.Sprint(cfg.corrupt)),
+						"-root", b.rootRace, "-seed", fmt.Sprint(seed), "-corrupt", fmt.Sprint(cfg.corrupt), "-churn", fmt.Sprint(cfg.churn)),
 					env: []string{"GOMAXPROCS=" + bgmp[i%len(bgmp)], "GORACE=halt_on_error=1 exitcode=66 history_size=4", "GOMEMLIMIT=6GiB"}}
 				p.run()
 				bmu.Lock()
@@ -792,7 +796,7 @@ func doCheck(cfg tierCfg) int {
 		if err := os.WriteFile(path, replayJSON, 0o644); err != nil {
 			trouble("writing %s: %v", path, err)
 		}
-		v := violation{identity: identity, replay: path, summary: summary}
+		v := violation{identity: strings.TrimSuffix(strings.TrimSuffix(identity, "|slice0"), "|slice1"), replay: path, summary: summary}
 		for i := range known {
 			if known[i].Property == "C18" && known[i].Status == "known" && known[i].Identity == identity {
 				v.known = &known[i]
@@ -811,6 +815,9 @@ func doCheck(cfg tierCfg) int {
 		identity, _ := rf["identity"].(string)
 		if identity == "" {
 			identity = f.Fail.Oracle + "|" + f.Fail.Key
+		}
+		if foundMode[i] == "refmerge" {
+			identity += fmt.Sprintf("|slice%d", i%2) // both slices of a disagreement are tried
 		}
 		if seen[identity] {
 			continue
@@ -832,6 +839,7 @@ func doCheck(cfg tierCfg) int {
 		switch rp.exit {
 		case 1, 66:
 			confirmed++
+			v.confirmed = true
 			v.summary += " (replay file reproduces in a fresh process)"
 		default:
 			unconfirmed++
@@ -894,43 +902,43 @@ func doCheck(cfg tierCfg) int {
 			"evaluations":         tot.Runs,
 			"distinct_nontrivial": overlappedDistinct,
 			"rule": "one evaluation = one simulated execution of a plan (2-6 caller tasks x 1-8 public-API calls) under one schedule: seeded serial runs, ordered-pair chains, single-preemption schedules and -race bursts. " +
-				"distinct_nontrivial counts serial seeded runs whose schedule signature (hash of the (task, operation, yield site) triples at which the baton changed hands) is distinct AND in which two calls of different tasks actually overlapped (a context switch while both were in flight); counted from the per-run records, bursts and sweeps not included",
-			"samples":                      samples,
-			"serial_seeded_runs":           serialRuns,
-			"distinct_schedule_signatures": distinct,
-			"runs_with_overlapping_calls":  tot.Overlapped,
-			"operations":                   tot.Ops,
-			"simulated_steps_yields":       tot.Steps,
-			"context_switches":             tot.Switches,
-			"runs_per_hour":                float64(tot.Runs) / wall * 3600,
-			"seeds_per_hour":               float64(serialRuns) / wall * 3600,
-			"simulated_time":               fmt.Sprintf("%d yields (the library has no clock; simulated time is the global yield counter)", tot.Steps),
-			"faults_fired":                 tot.Faults,
-			"faults_configured_runs_or_ops": tot.FaultsCfg,
-			"fault_kinds_with_zero_seams":  []string{"message loss/duplication/reordering", "partitions", "disk errors, torn/lost writes, full disk", "clock skew/jumps", "failing system calls or allocations"},
-			"strategies":                   tot.Strategies,
-			"contention_modes":             tot.Contention,
-			"granularity":                  tot.Granularity,
-			"ops_by_entry":                 tot.Entries,
-			"ops_by_variant":               tot.Variants,
-			"yield_sites_total":            tot.SitesTotal,
-			"yield_sites_covered_max_per_process": tot.SitesCovered,
-			"switch_edges_max_per_process": tot.SwitchEdges,
-			"pool_inputs":                  tot.PoolInputs,
-			"pool_operations":              tot.PoolOps,
-			"reference_table_hash":         mst.RefTableHash,
-			"reference_entries_recomputed_by_workers": tot.RefChecked,
-			"determinism_selftest":         map[string]any{"run_indices": selfCompared, "processes": 3, "gomaxprocs": []int{1, 4, 16}, "identical": selfLogDiff == nil && selfOutDiff == nil},
-			"sweeps":                       map[string]any{"ordered_pair_chains": sweep.Strategies["ordered-pair-sweep"], "ordered_pairs": cfg.pairsM * cfg.pairsM, "single_preemption_schedules": sweep.Strategies["single-preemption-sweep"]},
-			"bursts":                       map[string]any{"bursts": burst.Runs, "operations": burst.Ops, "gomaxprocs": []int{2, 4, 8, 16}, "race_reports": len(raceReports)},
-			"aborted_runs":                 tot.Aborted,
-			"degraded_runs":                0,
-			"foreign_goroutine_yields":     tot.Foreign,
-			"external_block_events":        tot.Aborted["external block (no yield for 10 s of real time)"],
-			"infeasible_segments":          tot.Infeasible,
-			"minimiser_executions":         tot.MinimiseExecs,
-			"failures_observed":            tot.FailuresTotal,
-			"violations_confirmed_by_fresh_replay": confirmed,
+				"distinct_nontrivial counts serial runs (seeded runs and single-preemption schedules) whose schedule signature (hash of the (task, operation, yield site) triples at which the baton changed hands) is distinct AND in which two calls of different tasks actually overlapped (a context switch while both were in flight); counted from the per-run records; bursts and ordered-pair chains not included",
+			"samples":                                   samples,
+			"serial_seeded_runs":                        serialRuns,
+			"distinct_schedule_signatures":              distinct,
+			"runs_with_overlapping_calls":               tot.Overlapped,
+			"operations":                                tot.Ops,
+			"simulated_steps_yields":                    tot.Steps,
+			"context_switches":                          tot.Switches,
+			"runs_per_hour":                             float64(tot.Runs) / wall * 3600,
+			"seeds_per_hour":                            float64(serialRuns) / wall * 3600,
+			"simulated_time":                            fmt.Sprintf("%d yields (the library has no clock; simulated time is the global yield counter)", tot.Steps),
+			"faults_fired":                              tot.Faults,
+			"faults_configured_runs_or_ops":             tot.FaultsCfg,
+			"fault_kinds_with_zero_seams":               []string{"message loss/duplication/reordering", "partitions", "disk errors, torn/lost writes, full disk", "clock skew/jumps", "failing system calls or allocations"},
+			"strategies":                                tot.Strategies,
+			"contention_modes":                          tot.Contention,
+			"granularity":                               tot.Granularity,
+			"ops_by_entry":                              tot.Entries,
+			"ops_by_variant":                            tot.Variants,
+			"yield_sites_total":                         tot.SitesTotal,
+			"yield_sites_covered_max_per_process":       tot.SitesCovered,
+			"switch_edges_max_per_process":              tot.SwitchEdges,
+			"pool_inputs":                               tot.PoolInputs,
+			"pool_operations":                           tot.PoolOps,
+			"reference_table_hash":                      mst.RefTableHash,
+			"reference_entries_recomputed_by_workers":   tot.RefChecked,
+			"determinism_selftest":                      map[string]any{"run_indices": selfCompared, "processes": 3, "gomaxprocs": []int{1, 4, 16}, "identical": selfLogDiff == nil && selfOutDiff == nil},
+			"sweeps":                                    map[string]any{"ordered_pair_chains": sweep.Strategies["ordered-pair-sweep"], "ordered_pairs": cfg.pairsM * cfg.pairsM, "single_preemption_schedules": sweep.Strategies["single-preemption-sweep"]},
+			"bursts":                                    map[string]any{"bursts": burst.Runs, "operations": burst.Ops, "gomaxprocs": []int{2, 4, 8, 16}, "race_reports": len(raceReports)},
+			"aborted_runs":                              tot.Aborted,
+			"degraded_runs":                             0,
+			"foreign_goroutine_yields":                  tot.Foreign,
+			"external_block_events":                     tot.Aborted["external block (no yield for 10 s of real time)"],
+			"infeasible_segments":                       tot.Infeasible,
+			"minimiser_executions":                      tot.MinimiseExecs,
+			"failures_observed":                         tot.FailuresTotal,
+			"violations_confirmed_by_fresh_replay":      confirmed,
 			"violations_not_reproduced_by_fresh_replay": unconfirmed,
 			"components": map[string]any{
 				"real":      []string{"memefish (parser, lexer, split, errors)", "memefish/ast", "memefish/token", "memefish/char" + " - as found in /repo's working tree, instrumented copy"},
@@ -953,11 +961,31 @@ func doCheck(cfg tierCfg) int {
 			fmt.Printf("KNOWN-FINDING: property=C18 %s (%s)\n", v.known.What, v.identity)
 		}
 	}
+	// a failure whose replay file does not reproduce in a fresh process is usually a second
+	// sighting of a failure that does (its run inherited state from an earlier run of the same
+	// process): when reproducing replay files exist, only those are printed
+	anyConfirmed := false
 	for _, v := range viols {
-		if v.known == nil {
-			fmt.Printf("violation: %s\n", v.summary)
-			fmt.Printf("VIOLATION property=C18 replay=%s\n", v.replay)
+		if v.known == nil && (v.confirmed || strings.HasPrefix(v.identity, "O5|")) {
+			anyConfirmed = true
 		}
+	}
+	printed := 0
+	for _, v := range viols {
+		if v.known != nil {
+			continue
+		}
+		if anyConfirmed && !v.confirmed && !strings.HasPrefix(v.identity, "O5|") {
+			os.Remove(v.replay)
+			continue
+		}
+		if printed >= 5 {
+			os.Remove(v.replay)
+			continue
+		}
+		printed++
+		fmt.Printf("violation: %s\n", v.summary)
+		fmt.Printf("VIOLATION property=C18 replay=%s\n", v.replay)
 	}
 	fmt.Printf("wall %.1fs; evidence written to %s\n", wall, filepath.Join(verifDir, "evidence", "C18.json"))
 	if unknownViol > 0 {
